@@ -711,7 +711,18 @@ impl Engine for ExecEngine {
                         let r = match self.run_once(&loaded, &these, &ids, cfg, ctx) {
                             Ok(r) => r,
                             Err(p) => {
-                                violation = Some(Violation::new(format!("C25/panic/run/{}", panic_site(&p)), format!("history step {hi} panicked: {} at {} [{}]", p.message, p.location, cfg_label(cfg))));
+                                // A panic is C25's business only if the history caused it: the same call on a
+                                // freshly loaded model must not panic (otherwise it is the operator's own
+                                // defect, e.g. integer overflow in a checked build, which C25 says nothing about).
+                                let fresh_panics = match self.load(&case.model, case.optimize, cfg.prepack, ctx) {
+                                    Some(fresh) => self.run_once(&fresh, &these, &ids, cfg, ctx).is_err(),
+                                    None => true,
+                                };
+                                if fresh_panics {
+                                    ctx.count("probe:run_panics_on_fresh_model_too");
+                                    continue;
+                                }
+                                violation = Some(Violation::new(format!("C25/panic/run/{}", panic_site(&p)), format!("history step {hi} panicked: {} at {} [{}] but the same call on a freshly loaded model does not", p.message, p.location, cfg_label(cfg))));
                                 break 'hist;
                             }
                         };
